@@ -8,8 +8,8 @@ from props.pcommon import *
 LEAN_TARGETS = ["Plonk.Props.C15"]
 PROFILE = "release"
 EXTRA_PROFILES = ["checked"]
-ASSUMPTIONS = ["MessagePack (msgpacker) and deflate (miniz_oxide) are external and not modelled: the model starts from the decoded "
-               "structure; malformed payloads are checked on the implementation only (error, bounded allocation, no panic)",
+ASSUMPTIONS = ["deflate / inflate (miniz_oxide) is external and not modelled: the model works on the inflated MessagePack payload "
+               "(msgpacker's encodings of bool/usize/u8/arrays and SHA-512 are re-implemented in the model and compared byte for byte)",
                "the built-in constant table (0, 1, -1, Hades constants) is an input of the dictionary theorems"]
 THEOREMS_NOTE = "Plonk/Props/C15.lean"
 
@@ -159,9 +159,15 @@ def run(ctx, broken):
             nbad += 1
             ctx.violation("impl:compressed-decoder:" + name, {"kind": "implementation-vs-property", "why": why, "request": l[:3000],
                                                                "impl_output": o})
+    # 4. the MessagePack payload itself: model payload == inflate(compress()) byte for byte; the model's from_bytes on the
+    #    inflated payload is the oracle for structure-aware variants (index boundaries, capacities, encodings, trailing data)
+    from props import packed
+    npk, dpk = packed.run_packed(ctx, "C15", progs[: (6 if ctx.tier == "quick" else 40)], rng, "checked", ctx.tier != "quick")
     st = r2.report()
     s1 = r1.report()
-    st["evaluations"] += s1["evaluations"] + len(mal)
+    st["packed_payload_cases"] = npk
+    st["packed_payload_distribution"] = dpk
+    st["evaluations"] += s1["evaluations"] + len(mal) + npk
     st["distinct_nontrivial"] += s1["distinct_nontrivial"]
     st["snapshot_model_disagreements"] = s1["model_disagreements"]
     st["payload_distribution"] = dist
@@ -171,5 +177,9 @@ def run(ctx, broken):
                   "give byte-identical prover and verifier or both fail, and the proof equals the specification prover's; "
                   "Compiler::max_constraints == model for every degree; (3) re-packed payloads (trailing data, truncation, bit flips "
                   "in the MessagePack and in the deflate stream, header edits, zip bombs, capacity too small) in the debug-assertions "
-                  "build: error or valid, never a panic, peak allocation below 40*(857*max+30)+1MiB." % n)
+                  "build: error or valid, never a panic, peak allocation below 40*(857*max+30)+1MiB; (4) the MessagePack payload of "
+                  "Circuit::compress() == the Lean model's from_composer+pack byte for byte (incl. the SHA-512-derived built-in dictionary), and "
+                  "the real from_bytes == the model's from_bytes on structure-aware variants of each payload (every index at its first "
+                  "invalid and last valid value, capacity exact / one short, declared lengths off by one / huge, non-minimal integer and "
+                  "array encodings, trailing / truncated data, non-canonical scalars, the other dictionary, sparse witness labels)." % n)
     return st
